@@ -53,6 +53,21 @@ type pipeCase struct {
 	Inp   []int      `json:"inp"`
 	Eol   string     `json:"eol"`
 	Calls []specCall `json:"calls"`
+	PP    ppSpec     `json:"pp"`
+}
+
+// ppSpec is Pipeline.tla's PP(FinalCalls): what the command writes, as items - a pass-through
+// line of the input, or the rendering of the snapshot of a call - and its exit status.
+type ppItem struct {
+	K string `json:"k"`
+	I int    `json:"i"`
+	C int    `json:"c"`
+}
+
+type ppSpec struct {
+	Determined bool     `json:"determined"`
+	Status     int      `json:"status"`
+	Items      []ppItem `json:"items"`
 }
 
 func strs(lead string) []string {
